@@ -1,5 +1,53 @@
-From PV Require Import Lib.Base Model.Npc.
+(* C09 -- fwer_minp attaches the step-down values to the right hypotheses and is monotone.
+   Statements only; proofs in Proofs/FwerProofs.v.  [ord] is the sorting permutation NumPy returned (an oracle
+   input, checked per correspondence case to be a sorting permutation). *)
+From PV Require Import Lib.Base Model.Npc Proofs.NpcProofs Proofs.FwerProofs.
 Open Scope Q_scope.
+
+(* restoring the caller's order: the hypothesis ord[k] (k-th smallest raw p-value) receives the k-th step-down
+   value, for every duplicate-free ord within range *)
+Theorem C09_kth_value_goes_to_kth_smallest : forall (ord : list nat) (vals out : list Q) k,
+  NoDup ord -> (forall i, In i ord -> (i < length out)%nat) -> length vals = length ord ->
+  (k < length ord)%nat -> nth (nth k ord 0%nat) (scatter ord vals out) 0 = nth k vals 0.
+Proof. exact scatter_nth. Qed.
+Print Assumptions C09_kth_value_goes_to_kth_smallest.
+
+(* the step-down values are a running maximum: non-decreasing along the sorted order, each at least the
+   previous one; with C09_kth_value_goes_to_kth_smallest: adjusted p-values are non-decreasing in the raw ones *)
+Theorem C09_stepdown_is_running_maximum : forall k p_ord d_ord c plus1 prev vals,
+  stepdown p_ord d_ord c plus1 prev k = Ok vals ->
+  (forall v, In v vals -> prev <= v) /\
+  (forall i j, (i <= j < length vals)%nat -> nth i vals 0 <= nth j vals 0).
+Proof. exact stepdown_running. Qed.
+Print Assumptions C09_stepdown_is_running_maximum.
+
+(* the first value is the NPC global p-value of all hypotheses (in sorted order); the last is
+   max(raw p of the largest, previous value) *)
+Theorem C09_first_is_global_and_last_is_max : forall p d ord c plus1 out,
+  fwer_minp p d ord c plus1 = Ok out ->
+  exists first rest,
+    npc (take_cols ord p) (map (take_cols ord) d) c plus1 = Ok first /\
+    stepdown (tl (take_cols ord p)) (map (@tl Q) (map (take_cols ord) d)) c plus1 first (length p - 2) = Ok rest /\
+    out = scatter ord (first :: rest) (repeat 0 (length p)).
+Proof.
+  intros p d ord c plus1 out. unfold fwer_minp.
+  destruct (length p <? 2)%nat; [discriminate|]. destruct (negb _); [discriminate|].
+  destruct (npc _ _ c plus1) as [first|] eqn:E1; cbn [bind]; [|discriminate].
+  destruct (stepdown _ _ c plus1 first _) as [rest|] eqn:E2; cbn [bind]; [|discriminate].
+  intros H. inversion H. exists first, rest. split; [reflexivity|split; [exact E2|reflexivity]].
+Qed.
+Print Assumptions C09_first_is_global_and_last_is_max.
+
+Theorem C09_last_value : forall pl c plus1 prev, stepdown [pl] [] c plus1 prev 0 = Ok [Qmax pl prev].
+Proof. reflexivity. Qed.
+Print Assumptions C09_last_value.
+
 Theorem C09_fwer_rejects_single_pvalue : forall p distr ord c plus1, (length p < 2)%nat -> fwer_minp p distr ord c plus1 = Err ValueError.
 Proof. intros p distr ord c plus1 H. unfold fwer_minp. apply Nat.ltb_lt in H. rewrite H. reflexivity. Qed.
 Print Assumptions C09_fwer_rejects_single_pvalue.
+
+Example C09_nonvacuous :
+  match fwer_minp [1 # 5; 3 # 10; 1 # 10] [[1; 2; 3]; [2; 1; 1]; [0; 0; 2]; [1; 1; 0]] [2; 0; 1]%nat Tippett false with
+  | Ok l => list_eqb Qeq_bool l [0; 3 # 10; 0] | Err _ => false end = true /\
+  scatter [2; 0; 1]%nat [5; 6; 7] [0; 0; 0] = [6; 7; 5].
+Proof. vm_compute. split; reflexivity. Qed.
